@@ -352,3 +352,96 @@ def classify_exc(e):
     if isinstance(e, KeyError):
         return ("C", K_KEY)
     return ("X", type(e).__name__ + ": " + str(e)[:200])
+
+
+# ------------------------------------------------------------------------------------------------
+# Coq text of a model configuration (witness file generation and kernel cross-check)
+# ------------------------------------------------------------------------------------------------
+
+def _zl(xs):
+    return "[" + "; ".join(str(int(x)) for x in xs) + "]"
+
+
+def coq_item(mc, it, cls):
+    k = it[0]
+    if k == "getplugins":
+        return "MGetPlugins %s" % _zl(mc.nid(x) for x in it[1])
+    if k == "keyfor":
+        return "MKeyFor %d" % mc.nid(it[1])
+    if k == "register":
+        return "HRegGet %d %d" % (mc.nid(it[1]), cls)
+    if k == "cleanup":
+        return "HSnap"
+    if k == "regread":
+        return "HRead %d %d" % (it[1], mc.nid(it[2]))
+    if k == "estimate":
+        return "MEstimate %s %d%%nat" % (_zl(mc.nid(x) for x in it[1]), it[2])
+    raise ValueError(it)
+
+
+def coq_terms(mc, threads_ncalls):
+    """(cfgm, shared, progs) as Coq terms, the same data `encode` sends to the driver"""
+    deps = "[" + "; ".join("(%d, %s)" % (mc.nid(n), _zl(mc.nid(x) for x in d)) for n, d in mc.deps.items()) + "]"
+    so = "[" + "; ".join("(%s, %s)" % (_zl(mc.nid(x) for x in k), _zl(mc.nid(x) for x in v))
+                         for k, v in mc.so.items()) + "]"
+    cfg = "(mkcfgm %s %s 400%%nat)" % (deps, so)
+    g = GRAPHS[mc.sc["graph"]]
+    reg = "[" + "; ".join("(%d, %d)" % (mc.nid(dt), 100 + mc.nid(dt)) for dt, _ in g) + "]"
+    if mc.warm is None:
+        sh = "(mkshared (mkdict %s 0%%nat) None [])" % reg
+    else:
+        items = "[" + "; ".join("(%d, %d)" % (mc.nid(n), (100 + mc.nid(n)) if n != mc.temp_name else 4999)
+                                for n in mc.warm) + "]"
+        sh = "(mkshared (mkdict %s 0%%nat) (Some 0%%nat) [mkdict %s 0%%nat])" % (reg, items)
+    progs = []
+    for tid, ncalls in enumerate(threads_ncalls):
+        its = []
+        for call in range(ncalls):
+            its += [coq_item(mc, it, 5000 + 10 * tid + call) for it in mc.items]
+        progs.append("[" + "; ".join(its) + "]")
+    return cfg, sh, "[" + ";\n   ".join(progs) + "]"
+
+
+WITNESSES = {
+    # name: (scenario, warm, threads_ncalls, run-length schedule, expected (tid, kind, label))
+    "wa1": (dict(graph="flat", targets=("src", "aa"), storage="none"), False, [1, 1], [(1, 45)], (1, K_ITER, 20)),
+    "wa2": (dict(graph="flat", targets=("src", "aa"), storage="none"), False, [1, 1], [(1, 44)], (1, K_KEY, 25)),
+    "wb1": (dict(graph="flat", targets=("aa",), storage="none"), False, [1, 1], [(0, 19), (1, 30)], (1, K_ITER, 15)),
+    "wb2": (dict(graph="flat", targets=("aa",), storage="none"), False, [1, 1], [(0, 17), (1, 31), (0, 1), (1, 10)],
+            (1, K_KEY, 15)),
+}
+
+
+def build_mc(sc, warm):
+    """skeleton + model configuration of a scenario from a traced sequential run of the real code"""
+    tr, res, st0 = extract_skeleton(sc, "001")
+    temp = [i[1] for i in tr.items if i[0] == "register"]
+    temp = temp[0] if temp else None
+    cached = None
+    if warm:
+        cached = list(st0._fixed_plugin_cache[st0._context_hash()].keys())
+    return ModelCfg(sc, tr.items, temp, cached), tr
+
+
+def gen_witness_file():
+    out = ["(* GENERATED by `python -m harness.props.c15_ctx gen-witness` from traced sequential runs of the real",
+           "   strax code (skeletons of Context.get_array); the check re-derives these terms on every run and",
+           "   compares them with this file (kernel cross-check).  Concrete refutations of ctx_race_free. *)",
+           "From SV Require Import Base.Prelude Model.CtxRace.", ""]
+    for name, (sc, warm, ncalls, segs, exp) in WITNESSES.items():
+        mc, _ = build_mc(sc, warm)
+        cfg, sh, progs = coq_terms(mc, ncalls)
+        out.append("(* %s: graph %s, targets %s, %s cache, %d worker threads x 1 run *)"
+                   % (name, GRAPHS[sc["graph"]], sc["targets"], "warm" if warm else "cold", len(ncalls)))
+        out.append("Definition %s_cfg : cfgm := %s." % (name, cfg))
+        out.append("Definition %s_sh : shared := %s." % (name, sh))
+        out.append("Definition %s_progs : list (list task) :=\n  %s." % (name, progs))
+        out.append("Definition %s_sched : list nat := rle %s."
+                   % (name, "[" + "; ".join("(%d%%nat, %d%%nat)" % s for s in segs) + "]"))
+        out.append("")
+    return "\n".join(out)
+
+
+if __name__ == "__main__":
+    if sys.argv[1:] == ["gen-witness"]:
+        print(gen_witness_file())
